@@ -91,10 +91,9 @@ theorem Tcb.shift_wl1 (h : s.state ≠ .SynSent) : (s.shift ka kb).snd.wl1 = s.s
   show (Snd.shift ka kb s.state s.snd).wl1 = _
   cases hs : s.state <;> first | rfl | exact absurd hs h
 
-theorem Tcb.shift_wl2 (h1 : s.state ≠ .SynSent) (h2 : s.state ≠ .SynReceived) :
-    (s.shift ka kb).snd.wl2 = s.snd.wl2 + ka := by
+theorem Tcb.shift_wl2 (h : s.state ≠ .SynSent) : (s.shift ka kb).snd.wl2 = s.snd.wl2 + ka := by
   show (Snd.shift ka kb s.state s.snd).wl2 = _
-  cases hs : s.state <;> first | rfl | exact absurd hs h1 | exact absurd hs h2
+  cases hs : s.state <;> first | rfl | exact absurd hs h
 
 @[simp] theorem Tcb.shift_queuedBytes : (s.shift ka kb).outgoing.queuedBytes = s.outgoing.queuedBytes := by
   unfold Outgoing.queuedBytes
@@ -104,9 +103,12 @@ theorem Tcb.shift_wl2 (h1 : s.state ≠ .SynSent) (h2 : s.state ≠ .SynReceived
 @[simp] theorem Tcb.shift_headerBuilder (q : Seq) :
     (s.shift ka kb).headerBuilder q = s.headerBuilder q := rfl
 
+/-- `fin_pending` reads the state and the queued text only -/
+@[simp] theorem Tcb.shift_finPending : (s.shift ka kb).finPending = s.finPending := rfl
+
 @[simp] theorem Tcb.shift_isFinAcked : (s.shift ka kb).isFinAcked = s.isFinAcked := by
   unfold Tcb.isFinAcked
-  rw [Tcb.shift_nxt, Tcb.shift_una, beq_shift]
+  rw [Tcb.shift_finPending, Tcb.shift_nxt, Tcb.shift_una, beq_shift]
 
 end proj
 
